@@ -39,7 +39,7 @@ func VerifC04_PassOpensCapacityOnlyWhenNeeded() {
 		// the node has joined but does not report its resources yet: the provider-resolved allocatable still counts
 		kubelet = append(kubelet, corev1.ResourceList{})
 	}
-	_, nc := w.addNode("node-1", "pool-1", "it-l", v1.CapacityTypeOnDemand, "zone-1", pwList(alloc), stage, kubelet...)
+	node, nc := w.addNode("node-1", "pool-1", "it-l", v1.CapacityTypeOnDemand, "zone-1", pwList(alloc), stage, kubelet...)
 	bound := resource.Quantity{}
 	if stage >= pwRegistered && verifrt.Choice("boundPod", 0, 1) == 1 {
 		bound = verifrt.MilliQuantity("bound.cpu", 0, 16000)
@@ -55,6 +55,17 @@ func VerifC04_PassOpensCapacityOnlyWhenNeeded() {
 	w.deliver()
 	if marked {
 		w.cluster.MarkForDeletion(nc.Status.ProviderID)
+		// ordinary updates of the Node or the NodeClaim arriving afterwards do not lift the mark
+		switch verifrt.Choice("updateAfterMark", 0, 2) {
+		case 1:
+			if node != nil {
+				node.Annotations = map[string]string{"example.com/touched": "true"}
+				verifrt.Assert(w.cluster.UpdateNode(w.ctx, node) == nil, "the node update is accepted by cluster state")
+			}
+		case 2:
+			nc.Annotations = map[string]string{"example.com/touched": "true"}
+			w.cluster.UpdateNodeClaim(nc)
+		}
 	}
 
 	results, err := w.prov.Schedule(w.ctx)
